@@ -213,6 +213,9 @@ class Ctx:
     def gv(self, name, module, args, inputs=None):
         """drive + validate"""
         trace, beh, out, cmd = self.drive(name, args, inputs=inputs)
+        self.last_beh = beh
+        if "disk" in args and "crash" in args:
+            self.notes["crash_runs_enumerated"] = self.notes.get("crash_runs_enumerated", 0) + sum(b[3] for b in beh)
         if inputs is not None and not beh:
             raise NoVerdict("driver %s replayed nothing" % name)
         return self.validate(name, module, trace, beh, cmd)
@@ -413,3 +416,34 @@ def c07(ctx):
     # ordinary writes included): such settings are outside the property; keep threshold 0 (unlimited) and >= 2 units
     adv = [a for a in adv if json.loads(a)["th"] != 1][:60 if q else 1200]
     ctx.gv("tlc-streams", "Trace_Restore", ["restore", "--seed", str(seed()), "--pit", str(6 if q else 60)], inputs=adv)
+
+
+DISK_ASSUME = ["fault model exactly as in C04: file data durable up to the file's last sync, directory entries up to the directory's last sync, base data directory durable beforehand (pebble strict MemFS + operation counter)",
+               "Pebble's own flush / manifest / ingest atomicity is trusted in the TLA+ model (a DB dir = volatile + durable index) but exercised for real by the crash enumeration",
+               "the crash falls after the k-th mutating file-system operation of the scenario, k = 0..N (every operation boundary, Pebble's internal ones included)"]
+
+
+@check("C04")
+def c04(ctx):
+    ctx.assumptions += DISK_ASSUME + TABLE_ASSUME
+    q = ctx.quick
+    ctx.design("TableDisk", "MC_TableDisk_quick.cfg" if q else "MC_TableDisk_thorough.cfg")
+    n = 25 if q else 400
+    ctx.gv("crash-points", "Trace_Table", ["disk", "--mode", "crash", "--seed", str(seed()), "--n", str(n)])
+
+
+@check("C08")
+def c08(ctx):
+    ctx.assumptions += DISK_ASSUME + TABLE_ASSUME
+    q = ctx.quick
+    ctx.design("TableDisk", "MC_TableDisk_quick.cfg" if q else "MC_TableDisk_thorough.cfg")
+    ctx.design("MC_Converge", "MC_Converge_quick.cfg")
+    # faithful + point-in-time + cross-format: snapshot transfers between real replicas with writes between prepare and save
+    n, ops = (120, 14) if q else (1500, 18)
+    if not ctx.gv("snapshot-transfers", "Trace_Table", ["table", "--mode", "converge", "--seed", str(seed() + 17), "--n", str(n), "--ops", str(ops)]):
+        return
+    # interrupted installs: stop signal at many byte positions of both formats; lazy read across an install (child process)
+    if not ctx.gv("stopped-installs", "Trace_Table", ["disk", "--mode", "install", "--seed", str(seed()), "--n", str(8 if q else 80)]):
+        return
+    # crashes at every file-system operation of scenarios that contain a snapshot install
+    ctx.gv("crash-points", "Trace_Table", ["disk", "--mode", "crash", "--seed", str(seed() + 5), "--n", str(15 if q else 300)])
